@@ -140,6 +140,12 @@ func verif_CheckAndEnableTLSServerConnWithTimeout(c net.Conn, tlsConfig *tls.Con
 	}
 }
 
+// The cipher constructors of the dependency derive their own key (pbkdf2) and
+// do not write through the key slice they are handed (trusted; read in
+// golib/crypto/{encode,decode}.go).
+//
+//verif:keeps-args github.com/fatedier/golib/crypto.NewReader github.com/fatedier/golib/crypto.NewWriter
+
 // NewCryptoReadWriter: both directions go through the cipher of the dependency
 // golib/crypto, keyed by the given key, around the given stream.
 //
